@@ -42,9 +42,10 @@ def _calls(fn):
     for n in ast.walk(tree):
         if isinstance(n, ast.With):
             for it in n.items:
-                if isinstance(it.context_expr, ast.Attribute) and "lock" in it.context_expr.attr:
-                    out.add("acquire")                     # `with <x>.<lock>:` blocks like acquire()
-                    LOCK_ATTRS.add(it.context_expr.attr)
+                if isinstance(it.context_expr, ast.Attribute) and it.optional_vars is None:
+                    out.add("acquire")                     # `with <x>.<lock or condition>:` blocks like acquire()
+                    if "lock" in it.context_expr.attr:
+                        LOCK_ATTRS.add(it.context_expr.attr)
         if isinstance(n, ast.Call):
             f = n.func
             nm = f.attr if isinstance(f, ast.Attribute) else (f.id if isinstance(f, ast.Name) else None)
@@ -136,6 +137,28 @@ class CoSocket:
     def __init__(self):
         self.inbox, self.sent, self.send_plan = [], [], []
         self.peer_closed = self.recv_error = self.closed = False
+        self.listening, self.pending, self.connect_result = False, [], 0
+
+    # set-up calls (TcpClient.start / TcpServer.start)
+    def setblocking(self, flag):
+        pass
+
+    def setsockopt(self, *a):
+        pass
+
+    def bind(self, addr):
+        pass
+
+    def listen(self, *a):
+        self.listening = True
+
+    def connect_ex(self, addr):
+        return self.connect_result
+
+    def accept(self):
+        if not self.pending:
+            raise BlockingIOError()
+        return self.pending.pop(0), ("10.0.0.2", 40000)
 
     def recv(self, n):
         if self.recv_error:
@@ -169,6 +192,8 @@ class CoSocket:
         self.closed = True
 
     def readable(self):
+        if self.listening:
+            return bool(self.pending)
         return bool(self.inbox) or self.peer_closed or self.recv_error
 
 
@@ -208,7 +233,7 @@ class CoSelector:
         out = []
         for sock, mask, data in list(self.reg.values()):
             r = 0
-            if mask & selectors.EVENT_WRITE:
+            if mask & selectors.EVENT_WRITE and not getattr(sock, "listening", False):      # a listening socket is never writable
                 r |= selectors.EVENT_WRITE
             if mask & selectors.EVENT_READ and sock.readable():
                 r |= selectors.EVENT_READ
@@ -237,6 +262,7 @@ class CoNode:
         from vf.standin import diameter, _forget_identifiers
         K = build(lines, points)
         self.K = K
+        self._prims = {}
         import copy
         if reuse is not None:
             self.d = reuse.d                                      # the same node object started again
@@ -266,6 +292,8 @@ class CoNode:
                 setattr(t, name, HLock())
             if isinstance(getattr(a, name, None), type(T.threading.Lock())):
                 setattr(a, name, HLock())
+        CS.standinize(t, self._prims)                 # any further real primitive the current tree keeps on these objects
+        CS.standinize(a, self._prims)
         t.is_connected = True
         t.events = []
         # Open / Closed(server, connection accepted): registered for READ; a client that has just called connect: READ|WRITE
@@ -301,3 +329,178 @@ class CoNode:
 
     def state(self):
         return self.d.get_current_state()
+
+
+# ------------------------------------------------------------------ whole life from Diameter.start()
+class _Mod:
+    """a module seen through a few overridden names (everything else is the real module's)"""
+
+    def __init__(self, real, **over):
+        self.__dict__["_real"] = real
+        self.__dict__.update(over)
+
+    def __getattr__(self, k):
+        return getattr(self._real, k)
+
+
+_REAL = {}
+
+
+def _real_module(holder, name):
+    """the real module bound to `name` in module `holder` (remembered before the first substitution)"""
+    key = (holder.__name__, name)
+    if key not in _REAL:
+        cur = getattr(holder, name)
+        _REAL[key] = getattr(cur, "_real", cur)
+    return _REAL[key]
+
+
+class CoBoot:
+    """A node object driven from Diameter.start(): the REAL start() wiring runs - Diameter.start, PeerStateMachine.start,
+    DiameterAssociation.start, TcpClient/TcpServer.start and run, every Thread(...).start() in it - on the coroutinised
+    subclasses.  Substituted: socket.socket (CoSocket whose connect_ex() result is a grid parameter; a listening CoSocket
+    with a queue of pending connections), selectors.DefaultSelector (CoSelector), threading.Thread (start() spawns the
+    target generator into the scheduler), every Lock/Event/Condition/Queue the constructors create (vf.cosched.standinize)."""
+
+    THREAD_NAMES = {"transport_layer_thread": "X", "recv_message_monitor": "W"}
+
+    def __init__(self, role, sched, lines=False, points=(), watchdog=10 ** 6, connect_results=(115,), send_plans=((),)):
+        from vf.standin import diameter, _forget_identifiers
+        import copy
+        K = self.K = build(lines, points)
+        self.role, self.sched = role, sched
+        self.connect_results, self.send_plans = list(connect_results), [list(p) for p in send_plans]
+        self.socks, self.selectors, self.assocs, self.psms, self.transports = [], [], [], [], []
+        self.listeners = []
+        self.threads, self.crashed, self._prims = [], {}, {}
+        self.d = copy.copy(diameter(role, 1, watchdog))
+        _forget_identifiers()
+        self.d._base = self.d.get_base_messages()
+        self.d._association = self.d._peer_state_machine = None
+        self.d.__class__ = K[S.Diameter]
+        boot = self
+
+        # ---- threads
+        class Thread:
+            def __init__(self, group=None, target=None, name=None, args=(), kwargs=None, daemon=None):
+                self.target, self.name, self.args, self.kwargs = target, name or "thread", args, kwargs or {}
+
+            def start(self):
+                gen = self.target(*self.args, **self.kwargs)
+                if not hasattr(gen, "send"):
+                    raise HarnessError(f"thread body {self.name} is not a coroutine (it ran to completion inside start())")
+                short = CoBoot.THREAD_NAMES.get(self.name, "S" if self.name.endswith("_psm_thread") else "T")
+                n = sum(1 for x in boot.threads if x.rstrip("0123456789") == short)
+                short = short if n == 0 else f"{short}{n + 1}"
+                boot.threads.append(short)
+                boot.sched.spawn(short, boot._guard(short, gen), daemon=True)
+
+            def join(self, timeout=None):
+                raise HarnessError("Thread.join in the code under test is not modelled")
+        for mod in (T, S, SM):
+            setattr(mod, "threading", _Mod(_real_module(mod, "threading"), Thread=Thread))
+
+        # ---- sockets and selectors
+        def mk_socket(*a, **k):
+            if role != "CLIENT":                 # a server only ever creates listening sockets; connections come from accept()
+                s = CoSocket()
+                boot.listeners.append(s)
+                return s
+            s = CoSocket()
+            i = len(boot.socks)
+            s.connect_result = boot.connect_results[min(i, len(boot.connect_results) - 1)]
+            s.send_plan = list(boot.send_plans[min(i, len(boot.send_plans) - 1)])
+            boot.socks.append(s)
+            return s
+
+        def mk_selector():
+            sel = CoSelector()
+            boot.selectors.append(sel)
+            return sel
+        T.socket = _Mod(_real_module(T, "socket"), socket=mk_socket)
+        T.selectors = _Mod(_real_module(T, "selectors"), DefaultSelector=mk_selector)
+
+        # ---- objects created by start()
+        def mk_transport(real_cls):
+            def make(ip, port):
+                t = real_cls.__new__(K[real_cls])
+                real_cls.__init__(t, ip, port)
+                CS.standinize(t, boot._prims)
+                t.selector.nothing_to_write = lambda: not t.data_stream and not t._send_buffer
+                t.events = []
+                boot.transports.append(t)
+                return t
+            return make
+        S.TcpClient, S.TcpServer = mk_transport(T.TcpClient), mk_transport(T.TcpServer)
+
+        def mk_assoc(conn, base):
+            a = S.DiameterAssociation.__new__(K[S.DiameterAssociation])
+            _RealAssoc.__init__(a, conn, base)
+            CS.standinize(a, boot._prims)
+            boot.assocs.append(a)
+            return a
+
+        def mk_psm(assoc):
+            psm = SM.PeerStateMachine.__new__(K[SM.PeerStateMachine])
+            _RealPsm.__init__(psm, assoc)
+            real_states = dict(psm.states)
+            psm.states = {k: K[type(v)](assoc) for k, v in real_states.items()}
+            psm.current_state = psm.states[real_states_key(real_states, psm.current_state)]
+            boot.psms.append(psm)
+            return psm
+
+        def real_states_key(states, cur):
+            for k, v in states.items():
+                if v is cur:
+                    return k
+            raise HarnessError("current state not among the states")
+        S.DiameterAssociation, S.PeerStateMachine = mk_assoc, mk_psm
+        CoTime.polite = False
+        CoTime.work = self._work
+
+    def connect(self):
+        """peer side: a new inbound connection on the latest listening socket; -> the server-side CoSocket"""
+        c = CoSocket()
+        self.listeners[-1].pending.append(c)
+        self.socks.append(c)
+        return c
+
+    def _work(self):
+        a, psm = self.d._association, self.d._peer_state_machine
+        if a is None or psm is None:
+            return False
+        return (not a._recv_messages.empty() or not a._send_messages.empty()
+                or (not a.state_is_active and isinstance(psm.current_state, SM.Open))
+                or isinstance(psm.current_state, (SM.WaitConnAck,)) or (isinstance(psm.current_state, SM.Closed) and self.role == "CLIENT" and psm.is_running)
+                or (a.transport is not None and a.transport._stop_threads))
+
+    def _guard(self, name, gen):
+        import bromelia.exceptions as E
+        lib = tuple(o for o in vars(E).values() if isinstance(o, type) and issubclass(o, BaseException) and o.__module__ == E.__name__)
+        try:
+            yield from gen
+        except (lib + (Exception,)) as e:
+            self.crashed[name] = f"{type(e).__name__}: {e}"
+
+    def restore(self):
+        S.DiameterAssociation, S.PeerStateMachine = _RealAssoc, _RealPsm
+        S.TcpClient, S.TcpServer = T.TcpClient, T.TcpServer
+
+    # accessors for the oracle (the connection made by the latest start())
+    @property
+    def assoc(self):
+        return self.assocs[-1] if self.assocs else None
+
+    @property
+    def transport(self):
+        return self.transports[-1] if self.transports else None
+
+    @property
+    def sock(self):
+        return self.socks[-1] if self.socks else None
+
+    def state(self):
+        return self.d.get_current_state()
+
+
+_RealAssoc, _RealPsm = S.DiameterAssociation, SM.PeerStateMachine
